@@ -78,6 +78,21 @@ CLAIMED = {
                   "against XSD facets; attribute tables compared with schema attribute tables",
         design="DESIGN.md §4 C11, appendix B.6",
     ),
+    "C12": dict(
+        level="other",
+        text="Effect analysis over the typed call graph: summaries in the lattice PURE < ADDS-EMPTY < WRITES are computed to a "
+             "fixpoint from syntactic primitives (generated xmlchemy mutators, lxml tree mutators and attribute stores on "
+             "non-fresh elements, relationship / part-name / blob updates), with a separate 'effects on objects other than the "
+             "receiver' summary so that work on just-constructed objects is not mistaken for a document effect. get_or_add "
+             "counts as ADDS-EMPTY only when the created subtree (from the _new_x override / template) is attribute-less and made "
+             "of schema types named CT_*Properties or the text-body scaffolding types. All 500+ public read accessors of the proxy "
+             "and part layers (getters, __iter__/__getitem__/__len__/__contains__, get/index/iter_*/has_*/is_*) must be PURE, "
+             "ADDS-EMPTY, named by the statement, or say in their docstring that they create content; the save path must be PURE. "
+             "22 undocumented writing accessors are carried as known findings. NOT decided: byte identity of repeated saves.",
+        technique="static analysis: interprocedural effect (purity) analysis on a typed call graph, schema-typed tolerance for "
+                  "empty containers, docstring vocabulary for documented exceptions",
+        design="DESIGN.md §4 C12, appendix B.4",
+    ),
     "C20": dict(
         level="other",
         text="Exhaustive finite-table comparison: every BaseXmlEnum member (alias groups by integer value; tokens distinct in "
